@@ -381,10 +381,12 @@ fn spec_at(pz: &Pz, t: i64) -> Option<(i64, bool)> {
 }
 
 /// classify a wall-clock reading for O2/O3.  Excepted by the property: T + prevOff for table
-/// transitions, the rule's own start/end wall-clock second in the neighbouring years.
+/// transitions that change the offset, the rule's own start/end wall-clock second in the neighbouring
+/// years when the rule changes the offset.
 fn judge_wall(pz: &Pz, sep: bool, offs: &[i64], l: i64) -> Judge {
-    for (i, &(t, _)) in pz.trans.iter().enumerate() {
-        if t.saturating_add(prev_off(pz, i)) == l {
+    // (`NoBoundary'`: only transitions that change the offset end a skipped or repeated interval)
+    for (i, &(t, idx)) in pz.trans.iter().enumerate() {
+        if prev_off(pz, i) != pz.types[idx].off && t.saturating_add(prev_off(pz, i)) == l {
             return Judge::Skip("excepted boundary second");
         }
     }
@@ -404,7 +406,7 @@ fn judge_wall(pz: &Pz, sep: bool, offs: &[i64], l: i64) -> Judge {
                 if !inside_year_ut(a, k) {
                     return Judge::Skip("rule transition within a day of the year boundary (outside the quantifier)");
                 }
-                if start_at(a, k) + a.std.off == l || end_at(a, k) + a.dst.off == l {
+                if a.std.off != a.dst.off && (start_at(a, k) + a.std.off == l || end_at(a, k) + a.dst.off == l) {
                     return Judge::Skip("excepted boundary second");
                 }
             }
